@@ -42,7 +42,7 @@ class C11(Profile):
                    'acceptance policy of add() is not judged: an add that raises is resolved by observation']
     components = dict(COMPONENTS_COMMON,
                       real=COMPONENTS_COMMON['real'] + ['stix2.datastore.memory', 'stix2.datastore.filesystem', 'tmpfs under /dev/shm (real directory semantics)'],
-                      simulated=COMPONENTS_COMMON['simulated'] + ['readdir order', 'I/O error injection (EIO/ENOSPC/EACCES)', 'short/torn writes',
+                      simulated=COMPONENTS_COMMON['simulated'] + ['readdir order', 'file time stamps (disk-owned clock, plan-chosen granularity)', 'I/O error injection (EIO/ENOSPC/EACCES)', 'short/torn writes',
                                                                   'process crash + restart'])
 
     # ------------------------------------------------------------------ generation
@@ -54,6 +54,8 @@ class C11(Profile):
             'bundlify': rng.random() < 0.25,
             'faults': faults,
             'spelling_knob': rng.random() < 0.3,
+            'mtime_gran': rng.choice([1, 1, 4, 0]),
+            'early_parse': rng.random() < 0.3,
         }
         n_ids = rng.randrange(2, 13)
         pool = SW.gen_pool(rng, index, n_ids, rng.choice([1, 2, 3, 5]), KINDS, digits_mixed=cfg['spelling_knob'])
@@ -348,6 +350,7 @@ class C11(Profile):
             fn = lambda: S.query([Filter('type', '=', typ)])
         else:
             fn = lambda: S.query([Filter('id', '=', sid)])
+        nvan = len(sw.disk.vanished)
         if not after_add:
             sw.disk.begin_op(ls_key, fault if store == 'F' else None)
             before_files = sw.disk_model()[0] if (store == 'F' and fault and fault.get('kind') == 'VANISH') else None
@@ -356,7 +359,7 @@ class C11(Profile):
         if fired and fired[0].startswith('VANISH'):
             # a file was really deleted under the reader: that version is gone (like an operator deleting it), the read itself
             # must tolerate it silently (documented: file-not-found between listing and open is skipped)
-            gone = {k for k, (nj, rel) in (before_files or {}).items() if rel in sw.disk.vanished}
+            gone = {k for k, (nj, rel) in (before_files or {}).items() if rel in sw.disk.vanished[nvan:]}     # this op's, not earlier ones'
             for k in gone:
                 model.pop(k, None)
             world.probe('file_vanished_under_reader')
